@@ -66,6 +66,34 @@ pub fn rand_name(rng: &mut Rng) -> String {
     }
 }
 
+/// Characters the Shift-JIS encoder cannot encode at all (`to_shift_jis` must refuse the string).
+pub const UNENCODABLE: [&str; 5] = ["\u{00E9}", "\u{2713}", "\u{1F600}", "\u{20AC}", "\u{00FC}"];
+/// Code points Shift-JIS encodes lossily (\u{00A5} -> 0x5C, \u{203E} -> 0x7E, \u{2212} -> U+FF0D): outside the
+/// property's quantifier; the model cannot predict the bytes (correspondence skip, oracle skip).
+pub const LOSSY: [&str; 3] = ["\u{00A5}", "\u{203E}", "\u{2212}"];
+
+fn nonempty_name(rng: &mut Rng) -> String {
+    loop {
+        let s = rand_name(rng);
+        if !s.is_empty() {
+            return s;
+        }
+    }
+}
+
+/// A string with the character `c` planted: 0 = last, 1 = first, 2 = middle, 3 = the only character;
+/// every other character is inside the codec's domain.
+pub fn plant(rng: &mut Rng, c: &str, placement: usize) -> String {
+    let pre = nonempty_name(rng);
+    let post = nonempty_name(rng);
+    match placement {
+        0 => format!("{}{}", pre, c),
+        1 => format!("{}{}", c, post),
+        2 => format!("{}{}{}", pre, c, post),
+        _ => c.to_string(),
+    }
+}
+
 fn rand_label(rng: &mut Rng) -> Name {
     match rng.below(8) {
         0 | 1 => None,
@@ -191,6 +219,42 @@ pub fn gen(seed: u64, tier: &str) -> Vec<String> {
         let nsets = *rng.pick(&[0usize, 1, 1, 2, 3, 5]);
         let sets: Vec<Vec<Name>> = (0..nsets).map(|_| rand_set(&mut rng, 257)).collect();
         push(&mut lines, &meta, &t, &sets);
+    }
+    // strings outside the codec's domain, in every string-bearing position (0 meta, 1 clip name,
+    // 2 slot name, 3 set label) x placement of the offending character (last, first, middle, only):
+    // `serialize` must refuse them — or, if it accepts, re-read exactly the value (oracle).
+    let mut planted = |rng: &mut Rng, lines: &mut Vec<String>, position: usize, bad: String| {
+        let mut meta: Name = if rng.chance(1, 2) { Some(rand_name(rng)) } else { None };
+        let mut t = rand_table(rng, 257);
+        let nsets = rng.range(1, 2) as usize;
+        let mut sets: Vec<Vec<Name>> = (0..nsets).map(|_| rand_set(rng, 257)).collect();
+        let k = rng.below(nsets as u64) as usize;
+        match position {
+            0 => meta = Some(bad),
+            1 => t[*rng.pick(&[0usize, 1, 128, 255, 256])] = Some(bad),
+            2 => sets[k][*rng.pick(&[1usize, 32, 33, 200, 256])] = Some(bad),
+            _ => sets[k][0] = Some(bad),
+        }
+        push(lines, &meta, &t, &sets);
+    };
+    let mut ci = 0;
+    let rounds = if thorough { 6 } else { 2 };
+    for _ in 0..rounds {
+        for position in 0..4 {
+            for placement in 0..4 {
+                let c = UNENCODABLE[ci % UNENCODABLE.len()];
+                ci += 1;
+                let bad = plant(&mut rng, c, placement);
+                planted(&mut rng, &mut lines, position, bad);
+            }
+        }
+    }
+    for position in 0..4 {
+        for c in LOSSY.iter() {
+            let placement = rng.below(4) as usize;
+            let bad = plant(&mut rng, c, placement);
+            planted(&mut rng, &mut lines, position, bad);
+        }
     }
     // outside the property's domain (model correspondence only; the oracle skips them):
     // other set / table lengths, the empty set (`set[0]` panics)
